@@ -68,6 +68,9 @@ type Request struct {
 	PrintKind string `json:",omitempty"` // "parsed" | "analyzed"
 	Seed      int64  `json:",omitempty"`
 	Passes    int    `json:",omitempty"`
+	// Via: how the transformer is driven: "" = Transformer.TransformPasses; "transform" = Transformer.Transform called
+	// directly, pass after pass; "generator" = fuzzer.Generator.Gen (what `homescript fuzz gen` runs)
+	Via string `json:",omitempty"`
 
 	WantTypes   bool `json:",omitempty"` // report probe variable types
 	WantRender  bool `json:",omitempty"` // render every diagnostic / syntax error against its file
